@@ -53,7 +53,9 @@ type Downstream struct {
 	lastIssuedUpstreamInfoAlias uint32                           // 最後に払い出されたアップストリーム情報のエイリアス
 	lastIssuedAckSequenceNumber uint32                           // 最後に払い出されたAckのシーケンス番号
 
-	wireConn     *wire.ClientConn
+	wireConn *wire.ClientConn
+	// connOutages is the connection's outage count at the moment this stream attached to wireConn (open or resume).
+	connOutages  uint64
 	idAlias      uint32
 	dpsCh        <-chan *message.DownstreamChunk
 	metaCh       <-chan *message.DownstreamMetadata
@@ -240,8 +242,10 @@ func (d *Downstream) run() error {
 	})
 
 	eg.Go(func() error {
+		// an outage since this stream attached to the connection (not the short-lived Reconnecting value: a fast redial can
+		// be over before this goroutine is woken, and the stream would stay attached to the dead wire connection)
 		d.connStatus.cond.L.Lock()
-		for !d.connStatus.IsWithoutLock(connStatusReconnecting) {
+		for d.connStatus.OutagesWithoutLock() == d.connOutages {
 			select {
 			case <-ctx.Done():
 				d.connStatus.cond.L.Unlock()
